@@ -438,6 +438,9 @@ https://c19.test:%d {
 `, ports[0], ports[0], ports[0], ports[0], root, filepath.Join(dir, fmt.Sprintf("access-%d.log", shard)), allPlaceholders, fa, ba,
 		ports[1], crt, key, root, filepath.Join(dir, fmt.Sprintf("access-tls-%d.log", shard)), allPlaceholders, ba)
 	os.WriteFile(filepath.Join(dir, fmt.Sprintf("Casketfile-%d", shard)), []byte(cf), 0o644)
+	// hostile peers leave half-open connections behind; do not let every
+	// server wait out the default 5 s grace period when the child stops
+	httpserver.GracefulTimeout = 250 * time.Millisecond
 	e.inst, err = lib.Start(cf, "")
 	if err != nil {
 		return nil, fmt.Errorf("casket start: %v", err)
